@@ -48,6 +48,7 @@ type LSession struct {
 	Exact    bool     `json:"exact"` // listen level: the driver's clock origin was pinned (see runSession), so time stamps are absolute: stamp = sum of dt
 	OnErr    bool     `json:"onerr"` // an error handler is installed (midi.HandleError at listen level, ListenConfig.OnErr at reader level)
 	Errs     int      `json:"errs"`  // number of times it was called
+	Ord      int      `json:"ord"`   // listen level: order of the (independent) options in the ListenTo call: 0 Use.., size; 1 size, Use..; 2 size, Use.. reversed
 }
 
 func cp(b []byte) hx.B { return append(hx.B{}, b...) }
@@ -102,7 +103,16 @@ func runSession0(s *LSession) {
 		if s.Tc {
 			opts = append(opts, midi.UseTimeCode())
 		}
-		opts = append(opts, midi.SysExBufferSize(s.Cap))
+		if s.Ord == 2 {
+			for i, j := 0, len(opts)-1; i < j; i, j = i+1, j-1 {
+				opts[i], opts[j] = opts[j], opts[i]
+			}
+		}
+		if s.Ord == 0 {
+			opts = append(opts, midi.SysExBufferSize(s.Cap))
+		} else {
+			opts = append([]midi.Option{midi.SysExBufferSize(s.Cap)}, opts...)
+		}
 		var stop func()
 		var err error
 		if len(s.Prev) == 3 { // an earlier listener with other options, stopped again: the new one must be a fresh receiver
@@ -404,7 +414,7 @@ func genGarbage(r *rand.Rand, n int) []byte {
 	return out
 }
 
-var dts = []int32{0, 0, 0, 1, 1, 2, 3, 5, 10, 100, 1000, 60000}
+var dts = []int32{0, 0, 0, 0, 1, 1, 1, 2, 3, 5, 10, 100, 1000, 60000, 1001, 1003, 1023, 1118, 1235, 4999} // (milliseconds that are no exact number of float seconds among them)
 
 func chunkUp(r *rand.Rand, stream []byte) []LChunk {
 	var cs []LChunk
@@ -431,7 +441,7 @@ func chunkUp(r *rand.Rand, stream []byte) []LChunk {
 	return cs
 }
 
-var caps = []uint32{0, 1, 2, 3, 4, 5, 8, 16, 64, 1024}
+var caps = []uint32{0, 1, 2, 3, 4, 5, 8, 16, 64, 1024, 1025, 1300} // 0 = the default (1024)
 
 func genSession(r *rand.Rand, id int, lvl string) *LSession {
 	s := &LSession{ID: id, Lvl: lvl}
@@ -441,6 +451,12 @@ func genSession(r *rand.Rand, id int, lvl string) *LSession {
 		s.As, s.Tc = true, true // the byte reader has no such filter; drivers apply it
 	}
 	feat := map[string]bool{}
+	if lvl == "listen" {
+		s.Ord = r.Intn(3)
+		if s.Ord != 0 && s.Cap > 1024 {
+			feat["size_above_default_before_UseSysEx"] = true
+		}
+	}
 	var stream []byte
 	switch k := r.Intn(10); {
 	case k < 4:
